@@ -60,6 +60,10 @@ func (d *uriDecoder) readLine(data string, commonHeader http.Header) (DecodedAmm
 	}
 	header := commonHeader.Clone()
 	for k, vv := range d.decodedConfigHeaders {
+		if _, ok := header[k]; ok {
+			// Headers in ammo file have priority.
+			continue
+		}
 		for _, v := range vv {
 			header.Set(k, v)
 		}
